@@ -145,7 +145,10 @@ func (o *oracle) Check(ctx *core.Ctx, ev *lsharness.Event) {
 		if ev.Result == "nogc" || ev.Err != "" {
 			return
 		}
-		target := ev.Capacity * 9 / 10
+		target := ev.GCTarget
+		if target != ev.GCCapacity*9/10 {
+			ctx.Fail("gc-target", "gcTarget() = %d for capacity %d", target, ev.GCCapacity)
+		}
 		if ev.GCDone && a.GCSize > target {
 			ctx.Fail("bounded-gcsize", "collection reported done but gcSize %d > target %d", a.GCSize, target)
 		}
@@ -154,14 +157,14 @@ func (o *oracle) Check(ctx *core.Ctx, ev *lsharness.Event) {
 		}
 		recycled := recycledEntries(b, a)
 		forcedZero := len(recycled) == 0 && a.GCSize == 0 && len(a.GC) > 0
-		if ev.GCDone && a.GCSum() > ev.Capacity {
+		if ev.GCDone && a.GCSum() > ev.GCCapacity {
 			switch {
 			case forcedZero:
-				ctx.Fail("bounded-sum-forced-zero", "collection recycled nothing, forced gcSize to 0 and reported done with ΣGCounter=%d > capacity %d", a.GCSum(), ev.Capacity)
-			case db < 0:
-				ctx.Fail("bounded-sum-undercount", "collection quiesced (done) with ΣGCounter=%d > capacity %d because gcSize (%d) undercounted Σ (%d) before the run", a.GCSum(), ev.Capacity, b.GCSize, b.GCSum())
+				ctx.Fail("bounded-sum-forced-zero", "collection recycled nothing, forced gcSize to 0 and reported done with ΣGCounter=%d > capacity %d", a.GCSum(), ev.GCCapacity)
+			case db < 0 || da < 0:
+				ctx.Fail("bounded-sum-undercount", "collection quiesced (done) with ΣGCounter=%d > capacity %d because gcSize undercounts Σ (before the run %d vs %d, after it %d vs %d)", a.GCSum(), ev.GCCapacity, b.GCSize, b.GCSum(), a.GCSize, a.GCSum())
 			default:
-				ctx.Fail("bounded-sum", "collection quiesced (done) with ΣGCounter=%d > capacity %d (gcSize=%d)", a.GCSum(), ev.Capacity, a.GCSize)
+				ctx.Fail("bounded-sum", "collection quiesced (done) with ΣGCounter=%d > capacity %d (gcSize=%d)", a.GCSum(), ev.GCCapacity, a.GCSize)
 			}
 		}
 		if da != db {
